@@ -134,14 +134,15 @@ pub fn mk_filter_map_o<'a, In: Elem<'a>>(
 pub fn mk_filter_map_r<'a, In: Elem<'a>>(
     ctx: &'a Ctx,
     idx: usize,
-) -> impl Fn(In) -> Result<Item, u32> + Clone + Send + Sync + 'a {
+) -> impl Fn(In) -> Result<Item, Item> + Clone + Send + Sync + 'a {
     move |x: In| {
         let (id, val) = (x.it().id, x.it().val);
         ctx.enter(idx as u8, id, 0);
         let st = &ctx.case.stages[idx];
+        // the error payload is a drop-tracked Item too: an intermediate value that must be dropped exactly once
         let out = match st.keep.keeps(id, val) {
             true => Ok(Item::new(id, st.map_val(val))),
-            false => Err(val),
+            false => Err(Item::new(id, val)),
         };
         drop(x);
         ctx.exit(idx as u8, id, out.is_ok() as u64);
